@@ -79,7 +79,7 @@ def charge_box(sym, rng, wide=False):
     return out
 
 
-def gen_universe(sym, rng, nlegs=None, maxsec=4, maxD=3, twin_safe=False):
+def gen_universe(sym, rng, nlegs=None, maxsec=4, maxD=3, twin_safe=False, uniform_D=False):
     sym = sym if isinstance(sym, Sym) else Sym(sym)
     nlegs = nlegs or rng.randint(2, 4)
     legs = []
@@ -94,6 +94,8 @@ def gen_universe(sym, rng, nlegs=None, maxsec=4, maxD=3, twin_safe=False):
         k = rng.randint(1, min(maxsec, len(cands)))
         ts = rng.sample(cands, k)
         Ds = [rng.choice([1, 1, 2, 2, 3] if maxD >= 3 else [1, 2][:maxD]) for _ in ts]
+        if uniform_D:       # every sector of every leg has the same dimension: fusion histories that differ in charges only
+            Ds = [uniform_D] * len(ts)
         legs.append(ULeg(sym, 1, ts, Ds))
     return legs
 
@@ -544,8 +546,9 @@ class OpAdd(Op):
         args = {"kind": kind}
         ins = [a, b]
         if kind == "amp":
-            if g.rng.random() < 0.4:
-                c = partner_same(g, a)
+            if g.rng.random() < 0.5:
+                # three operands; in half of the cases the last one is the first again (same fusion history as the first, whatever the middle one has)
+                c = a if g.rng.random() < 0.5 else partner_same(g, a)
                 if c is not None:
                     ins.append(c)
             cplx = g.sh(a).is_complex() or g.rng.random() < 0.2
@@ -1177,6 +1180,11 @@ class OpFusePair(Op):
     name = "fuse_pair"
 
     def gen(self, g):
+        rng = g.rng
+        if rng.random() < 0.65:
+            rec = self._gen_mismatched(g)
+            if rec is not None:
+                return rec
         a = g.pick_tensor(lambda s, v, sh: sh is not None and not sh.isdiag and sh.ndim >= 2 and max([depth(t) for t in sh.tree] + [0]) < 3)
         if a is None:
             return None
@@ -1187,6 +1195,61 @@ class OpFusePair(Op):
         g.emit(rec)
         rec2 = {"op": "fuse", "in": [b], "args": {"axes": rec["args"]["axes"], "mode": rec["args"]["mode"]}}
         return rec2
+
+    def _gen_mismatched(self, g):
+        """Deliberate construction: an unfused tensor a, 1-2 fresh partners on sub-sector selections of the same legs (equal, overlapping or
+        disjoint sector sets), the same fusion (optionally twice: nested) applied to all of them, then one binary / n-ary op over the family."""
+        rng = g.rng
+        a = g.pick_tensor(lambda s, v, sh: sh is not None and not sh.isdiag and 2 <= sh.ndim <= 5 and not sh.any_fused())
+        if a is None:
+            return None
+        sa = g.sh(a)
+        fam = [a]
+        for _ in range(rng.choice([1, 1, 2])):
+            specs = []
+            for u in sa.axes:
+                ref = find_uref(g.task, u)
+                if ref is None:
+                    return None
+                U = _uleg(g.task, [ref[0], ref[1], None])
+                sub = None
+                if len(U.ts) > 1 and rng.random() < 0.7:
+                    sub = sorted(rng.sample(range(len(U.ts)), rng.randint(1, len(U.ts))))
+                specs.append([ref[0], ref[1], sub])
+            rec = OPS["rand"].gen(g, specs=specs, n=list(sa.n))
+            fam.append(g.emit(rec)[0])
+        for _ in range(rng.choice([1, 1, 2])):
+            if g.sh(fam[0]) is None or g.sh(fam[0]).ndim < 2:
+                break
+            rec = OPS["fuse"].gen(g, a=fam[0])
+            if rec is None:
+                break
+            new = [g.emit(rec)[0]]
+            for b in fam[1:]:
+                new.append(g.emit({"op": "fuse", "in": [b], "args": {"axes": rec["args"]["axes"], "mode": rec["args"]["mode"]}})[0])
+            fam = new
+        if any(g.sh(x) is None for x in fam):
+            return None
+        kind = rng.choice(["add", "add3", "vdot", "tensordot", "sub"])
+        a0, b0 = fam[0], fam[1]
+        if rng.random() < 0.5:
+            a0, b0 = b0, a0
+        if kind in ("add", "sub"):
+            return {"op": "add", "in": [a0, b0], "args": {"kind": kind}}
+        if kind == "add3":
+            third = fam[2] if len(fam) > 2 and rng.random() < 0.5 else a0
+            ins = [a0, b0, third]
+            if rng.random() < 0.3:
+                ins = [a0, third, b0]
+            return {"op": "add", "in": ins, "args": {"kind": "amp", "amps": [[round(rng.uniform(-2, 2), 3), 0.0] for _ in ins]}}
+        if kind == "vdot":
+            return {"op": "vdot", "in": [a0, b0], "args": {"conj": rng.choice([[1, 0], [0, 1]])}}
+        nd = g.sh(a0).ndim
+        k = rng.randint(1, nd)
+        la = rng.sample(range(nd), k)
+        if 2 * (len(g.sh(a0).axes) - _total_leaves(g.sh(a0), la)) > 7:
+            la = list(range(nd))
+        return {"op": "tensordot", "in": [a0, b0], "args": {"axes": [la, list(la)], "conj": rng.choice([[0, 1], [1, 0]])}}
 
 
 @register
